@@ -10,8 +10,8 @@ open Rxn Driver
 
 structure St where
   zip : ZipTree.Tree := .nil
-  heap : Array HeapItems.Item := #[]
-  ppq : PPQ.Q := ⟨#[], #[]⟩
+  heap : HeapItems.H := {}
+  ppq : PPQ.Q := PPQ.new #[]
   cache : SortedCache.Cache := {}
   sets : Array OSet.S := Array.replicate 4 {}
   smap : SortedMap.M := {}
@@ -71,26 +71,39 @@ def step (st : St) : List String → St × String
     ({ st with zip := r.2 }, optHex r.1)
   | ["z.get", k] => (st, optHex (ZipTree.get (hexOr k) st.zip))
   | ["z.asc", p] => (st, showKV (ZipTree.ascendPrefix st.zip (hexOr p)))
+  | ["z.reput", k, v] =>
+    let r := ZipTree.reput (hexOr k) (hexOr v) st.zip
+    ({ st with zip := r.2 }, optHex r.1)
+  | ["z.ascput", p, v, _] =>
+    let r := ZipTree.ascendPut (hexOr p) (hexOr v) st.zip
+    ({ st with zip := r.2 }, showKV r.1)
   | ["z.inv"] =>
-    (st, if ZipTree.keysAscending (ZipTree.toList st.zip) && ZipTree.ranksOk st.zip then
-      s!"ok {ZipTree.size st.zip}" else "bad")
+    (st, (if ZipTree.keysAscending (ZipTree.toList st.zip) && ZipTree.ranksOk st.zip then
+      s!"ok {ZipTree.size st.zip} " else "bad ") ++ ZipTree.showTree st.zip)
   -- heap
   | ["h.push", p, id] =>
-    let h := Heap.push HeapItems.ilt st.heap ⟨natOr p, natOr id⟩
-    ({ st with heap := h }, s!"size {h.size}")
+    let h := HeapItems.step st.heap (.push (natOr p) (natOr id))
+    ({ st with heap := h }, s!"size {h.data.size}")
   | ["h.pop"] =>
-    match Heap.pop HeapItems.ilt st.heap with
-    | none => (st, "none")
-    | some (x, h) => ({ st with heap := h }, showHItem (some x))
-  | ["h.peek"] => (st, showHItem (Heap.peek st.heap))
-  | ["h.size"] => (st, toString st.heap.size)
+    (match HeapItems.out st.heap .pop with
+     | none => ({ st with heap := HeapItems.step st.heap .pop }, "none")
+     | some x => ({ st with heap := HeapItems.step st.heap .pop }, showHItem (some x)))
+  | ["h.peek"] => (st, showHItem (Heap.peek st.heap.data))
+  | ["h.size"] => (st, toString st.heap.data.size)
   | ["h.fix", id, p] =>
-    let h := HeapItems.reprio st.heap (natOr id) (natOr p)
+    let h := HeapItems.step st.heap (.fix (natOr id) (natOr p))
     ({ st with heap := h }, showOptNat (HeapItems.indexOf h (natOr id)))
   | ["h.idx", id] => (st, showOptNat (HeapItems.indexOf st.heap (natOr id)))
-  | ["h.dump"] => (st, showNats (st.heap.toList.map (·.id)))
+  | ["h.dump"] => (st, showNats (st.heap.data.toList.map (·.id)))
   -- partitioned priority queue
   | ["q.new", n] => ({ st with ppq := PPQ.new (Array.replicate (natOr n) []) }, "ok")
+  | ["q.newp", n, items] =>
+    -- constructor over partitions that already hold items (as after a restore)
+    let parts := (csv items).foldl (fun (ps : Array (List PPQ.Item)) s =>
+      match (s.splitOn ":").map natOr with
+      | [p, part, id] => ps.setIfInBounds part (PPQ.insertSorted ⟨p, part, id⟩ (ps.getD part []))
+      | _ => ps) (Array.replicate (natOr n) [])
+    ({ st with ppq := PPQ.new parts }, "ok")
   | ["q.push", p, part, id] =>
     -- `p.partitions[getPartitionIndex(item)]` panics (before any change) when the index addresses no partition
     if natOr part < st.ppq.parts.size then ({ st with ppq := PPQ.step st.ppq (.push ⟨natOr p, natOr part, natOr id⟩) }, "ok")
@@ -102,7 +115,10 @@ def step (st : St) : List String → St × String
   | ["q.peek"] => (st, showQItem (PPQ.peek st.ppq))
   | ["q.empty"] => (st, toString (PPQ.isEmpty st.ppq))
   | ["q.idx"] =>
-    (st, showNats ((List.range st.ppq.parts.size).map (PPQ.indexOf st.ppq.heap)))
+    (st, if st.ppq.parts.size = 0 then "list" else
+      "list " ++ joinWith "," ((List.range st.ppq.parts.size).map fun p => toString (st.ppq.idx p)))
+  | ["q.dump"] =>
+    (st, "parts " ++ joinWith "|" (st.ppq.parts.toList.map fun l => joinWith "," (l.map fun x => toString x.id)))
   -- sorted cache
   | ["c.new", m] => ({ st with cache := { maxSize := natOr m } }, "ok")
   | ["c.push", v] => ({ st with cache := SortedCache.push st.cache (hexOr v) }, "ok")
